@@ -247,6 +247,13 @@ def split_ws(s12, lost):
     """the version-12 HTTP+WebSocket state as the two records versions <= 11 used (state still in v12 shape otherwise)"""
     ws = s12.pop("websocket")
     hs = s12
+    for m in ws["messages"]:
+        # versions <= 11 stored the payload of TEXT messages as str
+        if m[0] == 1:
+            try:
+                m[2] = m[2].decode("utf8")
+            except UnicodeDecodeError:
+                raise NotRepresentable("TEXT message that is not UTF-8")
     hs["metadata"] = dict(hs["metadata"], websocket=True)
     rec = {
         "type": "websocket", "version": 12, "id": hs["id"][:-1] + "f", "client_conn": copy.deepcopy(hs["client_conn"]),
@@ -311,7 +318,7 @@ def projections(target, ftype, orig):
     pr = {}
     if vkey(target) < vkey(13):
         pr[("marked",)] = bool
-    if vkey(target) < vkey(12) and ftype == "ws":
+    if vkey(target) < vkey(12) and orig.get("websocket"):
         pr[("websocket", "closed_by_client")] = bool
     if vkey(target) < vkey(10):
         pr[("client_conn", "certificate_list")] = lambda x: list(x[:1])
@@ -363,71 +370,121 @@ def compare_representable(orig, got, lost, pr, ignore_meta=()):
     return out
 
 
-def feats_for(ftype, devnames, target):
-    tab = G.dev_table(ftype)
-    f = {"ftype": ftype, "from_version": ".".join(map(str, target)) if isinstance(target, tuple) else target}
-    if devnames:
-        d = tab[devnames[0]]
-        f["field"], f["kind"] = d.field, d.kind
-    else:
-        f["field"] = "(default)"
-    return f
+def vname(target):
+    return ".".join(map(str, target)) if isinstance(target, tuple) else target
 
 
-def synth_case(case, t: Tally):
-    ftype, devnames, target = case["t"], list(case["d"]), case["v"]
-    target = tuple(target) if isinstance(target, list) else target
-    feats = feats_for(ftype, devnames, target)
+def _pat(path):
+    """a diff / problem path with list indices blanked: the symptom class"""
+    return "/".join("*" if seg.isdigit() else seg for seg in path.split(":")[0].strip().split("/"))
+
+
+def symptom_of(r):
+    """coarse class of a failed load: exception type and where it came from / what it said"""
+    if r.end == "flow_read_error":
+        return "FlowReadException(%s)" % r.msg.split(":")[0][:40]
+    return "%s@%s" % (r.exc, r.stage or "-")
+
+
+class Verdict:
+    """one clause evaluation of a synthetic case: symptom = coarse class of what went wrong (None = held)"""
+    __slots__ = ("clause", "symptom", "expected", "observed")
+
+    def __init__(self, clause, symptom=None, expected=None, observed=None):
+        self.clause, self.symptom, self.expected, self.observed = clause, symptom, expected, observed
+
+
+def evaluate(ftype, devnames, target):
+    """-> (list of Verdict, outcome) or None if the flow cannot be expressed in the target version"""
     f = G.build(ftype, devnames)
     orig = to_mutable(f.get_state())
     orig.pop("backup", None)
     try:
         recs, lost = down(orig, target)
     except NotRepresentable:
-        t.note("flow not representable in the target version (skipped)")
-        t.case(None, nontrivial=False, key=case)
-        return
+        return None
+    out = []
     data = b"".join(G.tn(r) for r in recs)
     r = G.read_bytes(data)
     nexp = len(recs)
-    ok = t.judge("loads_to_valid_flow", r.end == "clean" and len(r.flows) == nexp, dict(feats, exc=r.exc or "-", stage=r.stage or "-"), case,
-                 "%d flow(s), clean end" % nexp, [len(r.flows), r.end, r.exc, r.stage, r.msg[:300]])
-    t.outcome((r.end, r.exc, r.stage))
-    if ok:
-        states = []
-        problems = []
-        for fl in r.flows:
-            try:
-                st = fl.get_state()
-                states.append(st)
-                problems += G.validate_state(st, CUR)
-            except KeyboardInterrupt:
-                raise
-            except BaseException as e:  # noqa: B036
-                problems.append("get_state raised %s: %s" % (type(e).__name__, str(e)[:200]))
-        ok = t.judge("loads_to_valid_flow", not problems, dict(feats, exc="-", stage="validate"), case, "valid current flow state", problems[:5])
-    if ok:
-        main = to_mutable(states[-1])
-        main.pop("backup", None)
-        pr = projections(target, ftype, orig)
-        ignore = ("websocket", "duplicated") if nexp == 2 else ()
-        d = compare_representable(orig, main, lost, pr, ignore)
-        t.judge("representable_fields_preserved", not d, feats, case, [x[1] for x in d], [[x[0], x[2]] for x in d])
-        if nexp == 2:
-            hs = to_mutable(states[0])
-            d2 = compare_representable(orig, hs, lost | {("websocket",)}, pr, ignore)
-            t.judge("representable_fields_preserved", not d2 and hs.get("websocket") is None, dict(feats, record="handshake"), case, [x[1] for x in d2], [[x[0], x[2]] for x in d2])
-        # re-save, re-load: fixpoint
+    outcome = (r.end, r.exc, r.stage)
+    if not (r.end == "clean" and len(r.flows) == nexp):
+        sym = symptom_of(r) if r.end != "clean" else "wrong-number-of-flows"
+        out.append(Verdict("loads_to_valid_flow", sym, "%d flow(s), clean end" % nexp, [len(r.flows), r.end, r.exc, r.stage, r.msg[:300]]))
+        return out, outcome
+    states, problems = [], []
+    for fl in r.flows:
         try:
-            data2 = G.dump_flows(r.flows)
-            r2 = G.read_bytes(data2)
-            same = r2.end == "clean" and len(r2.flows) == nexp and all(G.canon(a) == G.canon(b.get_state()) for a, b in zip(states, r2.flows))
-            obs = None if same else [r2.end, r2.exc, r2.msg[:200], [G.diff(a, b.get_state())[:3] for a, b in zip(states, r2.flows)][:2]]
+            st = fl.get_state()
+            states.append(st)
+            problems += G.validate_state(st, CUR)
         except KeyboardInterrupt:
             raise
         except BaseException as e:  # noqa: B036
-            same, obs = False, "%s: %s" % (type(e).__name__, str(e)[:200])
-        t.judge("resave_reload_fixpoint", same, feats, case, "identical state after save+load", obs)
+            problems.append("/get_state: raised %s: %s" % (type(e).__name__, str(e)[:200]))
+    if problems:
+        out.append(Verdict("loads_to_valid_flow", "invalid:" + _pat(problems[0]), "valid current flow state", problems[:5]))
+        return out, outcome
+    out.append(Verdict("loads_to_valid_flow"))
+    main = to_mutable(states[-1])
+    main.pop("backup", None)
+    pr = projections(target, ftype, orig)
+    ignore = ("websocket", "duplicated") if nexp == 2 else ()
+    d = compare_representable(orig, main, lost, pr, ignore)
+    if nexp == 2:
+        hs = to_mutable(states[0])
+        hs.pop("backup", None)
+        d = d + [("handshake:" + x[0], x[1], x[2]) for x in compare_representable(orig, hs, lost | {("websocket",)}, pr, ignore)]
+        if hs.get("websocket") is not None:
+            d.append(("handshake:websocket", None, "not None"))
+    out.append(Verdict("representable_fields_preserved", ("lost:" + _pat(d[0][0].replace("handshake:", ""))) if d else None, [x[1] for x in d], [[x[0], x[2]] for x in d]))
+    try:
+        data2 = G.dump_flows(r.flows)
+        r2 = G.read_bytes(data2)
+        same = r2.end == "clean" and len(r2.flows) == nexp and all(G.canon(a) == G.canon(b.get_state()) for a, b in zip(states, r2.flows))
+        obs = None if same else [r2.end, r2.exc, r2.msg[:200], [G.diff(a, b.get_state())[:3] for a, b in zip(states, r2.flows)][:2]]
+    except KeyboardInterrupt:
+        raise
+    except BaseException as e:  # noqa: B036
+        same, obs = False, "%s: %s" % (type(e).__name__, str(e)[:200])
+    out.append(Verdict("resave_reload_fixpoint", None if same else "not-a-fixpoint", "identical state after save+load", obs))
+    return out, outcome
+
+
+_BASE_SYMPTOMS: dict = {}
+
+
+def base_symptoms(ftype, target):
+    """what already fails for the default flow of that type at that version (the minimal trigger)"""
+    k = (ftype, target)
+    if k not in _BASE_SYMPTOMS:
+        res = evaluate(ftype, [], target)
+        _BASE_SYMPTOMS[k] = {(v.clause, v.symptom) for v in res[0] if v.symptom} if res else set()
+    return _BASE_SYMPTOMS[k]
+
+
+def synth_case(case, t: Tally):
+    ftype, devnames, target = case["t"], list(case["d"]), case["v"]
+    target = tuple(target) if isinstance(target, list) else target
+    res = evaluate(ftype, devnames, target)
+    if res is None:
+        t.note("flow not representable in the target version (skipped)")
+        t.case(None, nontrivial=False, key=case)
+        return
+    verdicts, outcome = res
+    t.outcome(outcome)
+    for v in verdicts:
+        if v.symptom is None:
+            t.ok(v.clause)
+            continue
+        feats = {"ftype": ftype, "from_version": vname(target), "symptom": v.symptom}
+        if devnames:
+            if (v.clause, v.symptom) in base_symptoms(ftype, target):
+                t.note("violation already shown by the default flow of that type and version")
+            else:
+                d = G.dev_table(ftype)[devnames[0]]
+                feats["field"], feats["kind"] = d.field, d.kind
+        t.bad(v.clause, feats, case, v.expected, v.observed)
     t.case(case if devnames and len(t.samples) < 3 else None, nontrivial=True, key=case)
 
 
@@ -507,12 +564,13 @@ def shipped_case(case, t: Tally):
         t.judge("unsupported_version_refused_cleanly", r.end == "flow_read_error" and not r.flows, dict(feats, exc=r.exc or "-"), case, "FlowReadException", [r.end, r.exc, r.msg])
         t.case(case, nontrivial=True, key=case)
         return
-    ok = t.judge("loads_to_valid_flow", r.end == "clean" and len(r.flows) == len(recs), dict(feats, exc=r.exc or "-", stage=r.stage or "-"), case,
+    loaded = r.end == "clean" and len(r.flows) == len(recs)
+    ok = t.judge("loads_to_valid_flow", loaded, dict(feats, symptom="-" if loaded else (symptom_of(r) if r.end != "clean" else "wrong-number-of-flows")), case,
                  "%d flows, clean end" % len(recs), [len(r.flows), r.end, r.exc, r.stage, r.msg[:300]])
     if ok:
         states = [fl.get_state() for fl in r.flows]
         problems = [p for st in states for p in G.validate_state(st, CUR)]
-        t.judge("loads_to_valid_flow", not problems, dict(feats, exc="-", stage="validate"), case, "valid current flow states", problems[:5])
+        t.judge("loads_to_valid_flow", not problems, dict(feats, symptom="invalid:" + _pat(problems[0]) if problems else "-"), case, "valid current flow states", problems[:5])
         # independent comparison of the fields whose meaning never changed (HTTP records only)
         diffs = []
         for rec, st in zip(recs, states):
@@ -537,7 +595,10 @@ def current_case(case, t: Tally):
     f = G.build(ftype, devnames)
     st = to_mutable(f.get_state())
     want = copy.deepcopy(st)
-    feats = feats_for(ftype, devnames, CUR)
+    feats = {"ftype": ftype}
+    if devnames:
+        d0 = G.dev_table(ftype)[devnames[0]]
+        feats["field"], feats["kind"] = d0.field, d0.kind
     G.reset_module_state()
     try:
         out = compat.migrate_flow(st)
